@@ -585,7 +585,7 @@ def transition(seedname, hist, e, pat, parent_kh, i4depth=None):
     r = judge_state(m2, patvals)
     if r:
         return None, r, None
-    if m2 is src and expect == 'changed' and e[0] not in NO_I6 and (any(a[5] is not None for a in pre_raw[0]) or any(st is not None for _, ks in pre_raw[1] for _, _, st in ks)):
+    if m2 is src and expect == 'changed' and e[0] not in NO_I6 and not (e[0] == 'tx' and any(x[0] in NO_I6 for x in e[1])) and (any(a[5] is not None for a in pre_raw[0]) or any(st is not None for _, ks in pre_raw[1] for _, _, st in ks)):
         r = label_persistence(replay_history(seedname, hist), m2)
         if r:
             return None, r + ' (%s)' % e[0], None
